@@ -171,6 +171,7 @@ struct Req
     u64 arg = 0;
     u64 arg2 = 0;
     bool via_const_view = false; // read-only ops: go through View<const Byte> obtained from the mutable view by conversion
+    bool entry_to_const = false; // every entry on the path is converted entry<Byte> -> entry<const Byte> before use (read-only ops)
     const std::vector<Decision>* script = nullptr;
     long long stop_at = -1; // M_VISIT_FULL: callback number that returns true (1-based), -1 never
     const void* tree = nullptr; // M_ENCODE: const Node*
@@ -187,8 +188,12 @@ struct Res
     long long cursor_off = -1;
     std::vector<CursorStep> csteps;
     std::vector<Event> events;
+    // set when a by-tag form was asked for but does not exist although the named accessor with the same
+    // arguments does ("get_by_tag/set_by_tag behave exactly like the named accessors")
+    const char* api_gap = nullptr;
     void reset()
     {
+        api_gap = nullptr;
         has_bits = has_addr = valid = unsupported = false;
         bits = size = 0;
         addr_off = 0;
@@ -197,6 +202,12 @@ struct Res
         events.clear();
     }
 };
+
+inline const char*& api_gap_slot()
+{
+    static const char* s = nullptr;
+    return s;
+}
 
 struct Driver
 {
